@@ -682,6 +682,30 @@ fn balanced_scanner(m: &Model, ctx: &mut Ctx) {
             })),
             (".inner", Some(v)) | (".into_inner", Some(v)) | (".clone", Some(v)) if a.len() == 1 => Some(Ok(v.clone())),
             (".unwrap_or_default", Some(Val::Ctor(n, _, _))) if n == "None" => Some(Ok(Val::Char('\0'))),
+            // the crate's own comment parser (white space, then one comment in either form; C13.line and the block rule decide
+            // that it consumes exactly the comment): modelled by X.680 12.6.3 / 12.6.4
+            ("comment", Some(Val::Str(input))) => {
+                let t = input.trim_start_matches(|c: char| c == ' ' || c == '\t' || c == '\n' || c == '\r');
+                let lead = input.len() - t.len();
+                let end = if let Some(body) = t.strip_prefix("--") {
+                    let eol = body.find(|c| c == '\n' || c == '\r').unwrap_or(body.len());
+                    Some(2 + match body[..eol].find("--") { Some(k) => k + 2, None => eol })
+                } else if t.starts_with("/*") {
+                    let (mut i, mut level) = (2usize, 1i32);
+                    let mut end = None;
+                    while i < t.len() {
+                        if t[i..].starts_with("/*") { level += 1; i += 2; }
+                        else if t[i..].starts_with("*/") { level -= 1; i += 2; if level == 0 { end = Some(i); break; } }
+                        else { i += t[i..].chars().next().map(|c| c.len_utf8()).unwrap_or(1); }
+                    }
+                    end
+                } else { None };
+                Some(Ok(match end {
+                    Some(e) => Val::Ctor("Ok".into(), vec![Val::Tuple(vec![Val::Str(input[lead + e..].to_string()), Val::Str(input[lead..lead + e].to_string())])], BTreeMap::new()),
+                    None => Val::Ctor("Err".into(), vec![Val::Unit], BTreeMap::new()),
+                }))
+            }
+            (".len", Some(Val::Str(t))) if a.len() == 1 => Some(Ok(Val::int(t.len() as i128))),
             ("tag()", Some(Val::Str(t))) => match a.get(1) {
                 Some(Val::Str(input)) => Some(Ok(if input.starts_with(t.as_str()) { Val::Ctor("Ok".into(), vec![Val::Unit], BTreeMap::new()) } else { Val::Ctor("Err".into(), vec![Val::Unit], BTreeMap::new()) })),
                 _ => None,
@@ -765,6 +789,57 @@ fn balanced_scanner(m: &Model, ctx: &mut Ctx) {
         }
     }
     ctx.floor("C13.scan/texts", n, 20);
+    // the same scanner delimits `{ .. }` after CONSTRAINED BY (and in value notation handed on as text): there the text between
+    // the braces is ASN.1 notation, in which a comment may contain a brace ("comments containing quotes, braces, keywords")
+    let brace_texts = [" x -- } -- y } rest", " x /* } */ y } rest", " x -- {\n y } rest", " plain } rest"];
+    let comment_aware = |text: &str| -> Option<usize> {
+        let (mut i, mut level) = (0usize, 0i32);
+        while i < text.len() {
+            let r = &text[i..];
+            if r.starts_with("--") {
+                let body = &r[2..];
+                let eol = body.find('\n').unwrap_or(body.len());
+                i += 2 + match body[..eol].find("--") { Some(k) => k + 2, None => eol };
+            } else if r.starts_with("/*") {
+                i += r.find("*/").map(|k| k + 2).unwrap_or(r.len());
+            } else if r.starts_with('{') {
+                level += 1;
+                i += 1;
+            } else if r.starts_with('}') {
+                level -= 1;
+                if level == -1 {
+                    return Some(i);
+                }
+                i += 1;
+            } else {
+                i += r.chars().next().map(|c| c.len_utf8()).unwrap_or(1);
+            }
+        }
+        None
+    };
+    for text in brace_texts {
+        ctx.oblige("C13.scan", &format!("braces-with-comment:{:?}", text), true);
+        let mut env = Env::new();
+        env.insert(params.first().cloned().unwrap_or("opening_tag".into()), Val::Str("{".into()));
+        env.insert(params.get(1).cloned().unwrap_or("closing_tag".into()), Val::Str("}".into()));
+        let r = ev.eval_fn_body(&f.block, &mut env).and_then(|clo| match clo {
+            Val::Closure(cl, cenv) => ev.apply_closure(&syn::Expr::Closure(*cl), &[Val::Str(text.to_string())], &cenv),
+            o => Err(format!("take_until_unbalanced returned {}", o.show())),
+        });
+        let want = comment_aware(text);
+        let got = match &r {
+            Ok(Val::Ctor(ok, p, _)) if ok == "Ok" => match p.first() { Some(Val::Tuple(t)) if t.len() == 2 => match &t[1] { Val::Str(c) => Some(c.len()), _ => None }, _ => None },
+            _ => None,
+        };
+        if let Err(e) = &r {
+            ctx.fail_closed("C13.scan", &format!("[{:?}]: {}", text, e));
+            break;
+        }
+        if got != want {
+            ctx.violate("C13.scan", "brace-inside-comment", &f.file, f.line, &format!("scanning {:?} for the `}}` that closes the braces stops after {:?} bytes; with the comments skipped the closing brace is at byte {:?}: a comment that contains a brace changes where `CONSTRAINED BY {{ .. }}` ends (inserting the comment turns Ok into Err)", text, got, want));
+            break;
+        }
+    }
 }
 
 /// C13.mandatory: "none where the tokens stay separable" — no boundary may *require* whitespace. A parser that demands
